@@ -60,6 +60,10 @@ def run(prog: Program, rep, tier: str) -> None:
     x = ExcFlow(prog)
     rep.extra["exception_flow_rounds"] = x.rounds
     containment(prog, rep, x)
+    # a failure is only noticed if the evaluator computes (and validates) the value at the requested point in this call: a memo in
+    # the evaluator can answer for a point whose evaluation failed
+    from . import c19 as _c19
+    _c19.evaluator_memoryless(prog, rep)
 
     # --- rule 3: failure result ----------------------------------------------------------
     failure_result(prog, rep, x)
